@@ -69,12 +69,22 @@ type caseResult struct {
 	abort    bool
 	expected []Diag
 	litExtra int
+	// the change list findChangedThrift returned cannot be one of Thrift files of HEAD~
+	listProblem string
 }
 
 var (
 	binPath string
 	tmpRoot string
 )
+
+func copyFiles(m map[string]string) map[string]string {
+	out := make(map[string]string, len(m)+1)
+	for k, v := range m {
+		out[k] = v
+	}
+	return out
+}
 
 func orderSeed(input string) uint64 {
 	h := sha256.Sum256([]byte(input))
@@ -106,7 +116,30 @@ func runCase(idx int, in *caseInput) *caseResult {
 		newMods[p] = m
 	}
 
-	if err := makeRepo(dir, oldFiles, newFiles); err != nil {
+	// files that are not Thrift files, placed so that the commit looks like a rename between a
+	// Thrift file and something else: a deleted Thrift file lives on under another extension, an
+	// added one existed before as something else. Neither is a Thrift file of its commit; the
+	// deletion is still a deletion and the addition still an addition.
+	repoOld, repoNew := oldFiles, newFiles
+	switch idx % 8 {
+	case 2:
+		for _, p := range sortedKeys(oldFiles) {
+			if _, still := newFiles[p]; !still {
+				repoNew = copyFiles(newFiles)
+				repoNew[p+[]string{".disabled", ".bak", ".txt"}[idx/8%3]] = oldFiles[p]
+				break
+			}
+		}
+	case 4:
+		for _, p := range sortedKeys(newFiles) {
+			if _, was := oldFiles[p]; !was {
+				repoOld = copyFiles(oldFiles)
+				repoOld[strings.TrimSuffix(p, ".thrift")+[]string{".idl", ".thrift.txt", ""}[idx/8%3]] = newFiles[p]
+				break
+			}
+		}
+	}
+	if err := makeRepo(dir, repoOld, repoNew); err != nil {
 		res.internal = err.Error()
 		return res
 	}
@@ -192,12 +225,12 @@ func runCase(idx int, in *caseInput) *caseResult {
 	var all []verifhook.Diagnostic
 	for _, c := range res.changes {
 		if c.Action == "insert" {
-			res.internal = "change list contains an insert"
+			res.listProblem = "the list of changed Thrift files contains an insert: " + c.File
 			return res
 		}
 		from := oldMods[c.File]
 		if from == nil {
-			res.internal = "changed file not in the old tree: " + c.File
+			res.listProblem = "the list of changed Thrift files names " + c.File + ", which is no Thrift file of HEAD~"
 			return res
 		}
 		fs, err := summarize(dir, from)
@@ -392,7 +425,7 @@ func main() {
 		os.Exit(3)
 	}
 	rep := report.New(*prop)
-	rep.Rule = "case = (base program of 1-5 Thrift files with cross-file references, some in sub-directories) + edit script of 0-6 edits drawn from the breaking / required-with-default / additive / structural / neutral kinds (histogram edit_kind), committed as HEAD~ and HEAD; in three cases of eight the checkout is then changed without committing (the last commit undone, every Thrift file deleted, garbage appended to every Thrift file); non-trivial = go-git reports at least one changed .thrift file; distinct = distinct (old, new) file contents"
+	rep.Rule = "case = (base program of 1-5 Thrift files with cross-file references, some in sub-directories) + edit script of 0-6 edits drawn from the breaking / required-with-default / additive / structural / neutral kinds (histogram edit_kind), committed as HEAD~ and HEAD; in two cases of eight a deleted Thrift file lives on under another extension, or an added one existed before as a file that is no Thrift file (exact renames for go-git); in three cases of eight the checkout is then changed without committing (the last commit undone, every Thrift file deleted, garbage appended to every Thrift file); non-trivial = go-git reports at least one changed .thrift file; distinct = distinct (old, new) file contents"
 	fail := func(err error) {
 		fmt.Fprintln(os.Stderr, "breakcheck:", err)
 		os.Exit(3)
@@ -581,7 +614,7 @@ func runBatch(rep *report.Report, drv string, cases []*caseInput, corpusCases, o
 	// phase 2: the model
 	var ops []string
 	for _, res := range results {
-		if res.skipped != "" || res.internal != "" {
+		if res.skipped != "" || res.internal != "" || res.listProblem != "" {
 			continue
 		}
 		ops = append(ops, res.runOp, res.diffOp)
@@ -601,6 +634,11 @@ func runBatch(rep *report.Report, drv string, cases []*caseInput, corpusCases, o
 		src := "generated"
 		if ci < corpusCases {
 			src = "corpus"
+		}
+		if res.listProblem != "" {
+			rep.Disagree(report.Disagreement{Kind: "changed-file list", Input: res.input, Impl: res.listProblem,
+				Oracle: "only Thrift files of HEAD~ that were modified or deleted are compared; binary said: " + res.bin.answer()})
+			continue
 		}
 		if res.internal != "" {
 			internal++
